@@ -21,6 +21,7 @@ var c17Specs = []famSpec{
 	{Family: "rect-soup", Pool: 30000, PoolQ: 1500},
 	{Family: "rect-cavity", Pool: 30000, PoolQ: 1500},
 	{Family: "touching", FreshQ: 1500, FreshT: 30000},
+	{Family: "stacked", FreshQ: 800, FreshT: 15000},
 	{Family: "nested-small", Pool: 20000, PoolQ: 1000},
 	{Family: "nested", FreshQ: 1000, FreshT: 30000},
 	{Family: "xproc-a", FreshQ: 400, FreshT: 5000},
@@ -31,7 +32,7 @@ func init() {
 	register(&run.Prop{
 		ID: "C17",
 		Rule: "case = base input (families as C01) x 2 (clip type, fill rule) pairs; byte-determinism: the same call twice in one process, and (xproc-a/xproc-b families: the same inputs run in two different worker processes) output digests compared across processes; " +
-			"spellings: path permutation, start rotation, repeated closing vertex, repeated arbitrary vertices, single-path reversal under EvenOdd, all-paths reversal under NonZero, all-paths reversal with Positive<->Negative, subject/clip exchange for Union/Intersection/Xor, the 8 symmetries of the square lattice; " +
+			"spellings: path permutation (also with the permuted sets added in instalments to one engine, an unrelated execution in between), start rotation, repeated closing vertex, repeated arbitrary vertices, single-path reversal under EvenOdd, all-paths reversal under NonZero, all-paths reversal with Positive<->Negative, subject/clip exchange for Union/Intersection/Xor, the 8 symmetries of the square lattice; " +
 			"the solution region of each spelling is compared with the base solution (mapped through the symmetry) at integer points > 2 units from every input edge. Non-trivial = base Union run had >= 3 intersections and >= 1 eligible point; distinct by input digest.",
 		Assumptions: []string{"region comparison by exact winding of both solutions at sampled eligible points"},
 		Floor:       300,
@@ -182,10 +183,11 @@ func c17Run(ctx *run.Ctx, id run.CaseID) {
 			fr     clip.FillRule
 			mapPt  func(Pt) Pt
 			wantOK bool
+			exec   func() Paths // nil: BooleanOpPaths64
 		}
 		var sp []spelling
 		add := func(name string, s, c Paths, ct2 clip.ClipType, fr2 clip.FillRule, f func(Pt) Pt) {
-			sp = append(sp, spelling{name, s, c, ct2, fr2, f, true})
+			sp = append(sp, spelling{name, s, c, ct2, fr2, f, true, nil})
 		}
 		// permutation of paths
 		perm := func(ps Paths) Paths {
@@ -196,6 +198,22 @@ func c17Run(ctx *run.Ctx, id run.CaseID) {
 			return out
 		}
 		add("permute", perm(subj), perm(clp), ct, fr, nil)
+		// the same paths written down in instalments: permuted subject, an unrelated execution, then the permuted clip
+		{
+			ps, pc := perm(subj), perm(clp)
+			sp = append(sp, spelling{"permute-in-instalments", ps, pc, ct, fr, nil, true, func() Paths {
+				c := clip.NewClipper64()
+				c.AddPaths(ps, clip.Subject, false)
+				tmp := Paths{}
+				c.Execute(clip.Union, fr, &tmp)
+				half := len(pc) / 2
+				c.AddPaths(pc[half:], clip.Clip, false)
+				c.AddPaths(pc[:half], clip.Clip, false)
+				sol := Paths{}
+				c.Execute(ct, fr, &sol)
+				return sol
+			}})
+		}
 		// start rotation
 		rot := func(ps Paths) Paths {
 			out := make(Paths, len(ps))
@@ -273,7 +291,13 @@ func c17Run(ctx *run.Ctx, id run.CaseID) {
 		}
 		for _, s := range sp {
 			var sol Paths
-			if !ctx.Guard(digest, "spelling/"+s.name+"/"+tag, in, func() { sol = clip.BooleanOpPaths64(s.ct, s.s, s.c, s.fr) }) {
+			if !ctx.Guard(digest, "spelling/"+s.name+"/"+tag, in, func() {
+				if s.exec != nil {
+					sol = s.exec()
+				} else {
+					sol = clip.BooleanOpPaths64(s.ct, s.s, s.c, s.fr)
+				}
+			}) {
 				continue
 			}
 			ctx.Eval(1)
@@ -299,7 +323,7 @@ func c17Run(ctx *run.Ctx, id run.CaseID) {
 	if nontrivial {
 		ctx.Nontrivial(digest)
 		if ctx.WantSample() {
-			ctx.Sample(map[string]any{"case": id.String(), "subject": subj, "clip": clp, "spellings": 15})
+			ctx.Sample(map[string]any{"case": id.String(), "subject": subj, "clip": clp, "spellings": 16})
 		}
 	}
 }
